@@ -23,6 +23,13 @@ type c10Case struct {
 	Trail    string `json:"trail"`           // silent, valid, flood, noread, close
 	TrailN   int    `json:"trailn"`          //
 	Burst    bool   `json:"burst,omitempty"` // in-flight requests and the offence are written without waiting in between
+	// Backpressure: before the in-flight requests and the offence are written (in one burst), the peer stops reading
+	// and sends PINGs until the server's write queue is exactly full (hook counters: queued - written - dropped = 129),
+	// so that the next frame the server wants to write, the GOAWAY included, blocks; Filler WINDOW_UPDATE frames
+	// (no reply) go in front of the burst so that the stream loop lags behind the read loop. Reading resumes after
+	// the burst. The GOAWAY then has to be truthful although it could not be written when the error was found.
+	Backpressure bool `json:"backpressure,omitempty"`
+	Filler       int  `json:"filler,omitempty"`
 }
 
 type c10Offence struct {
@@ -167,6 +174,38 @@ func c10Run(c c10Case) Outcome {
 		}
 	}
 	var open uint32
+	if c.Backpressure {
+		c.Burst = true
+		h.C.HoldReads(true)
+		h.S.SetWriteLimit(2048)
+		gap := func() int64 {
+			ev := &h.Stats.Ev
+			return ev[http2.VerifEvQueued].Load() - ev[http2.VerifEvWritten].Load() - ev[http2.VerifEvDropped].Load()
+		}
+		full := false
+		fillBy := time.Now().Add(3 * time.Second)
+		for n := 0; n < 800 && !full && time.Now().Before(fillBy); n++ {
+			_ = h.Write(rawframe.Append(nil, rawframe.Ping, 0, 0, make([]byte, 8)))
+			// until the stream loop has dealt with it: either the acknowledgement is queued or the queue is full
+			for spin := 0; spin < 20000 && time.Now().Before(fillBy); spin++ {
+				ev := &h.Stats.Ev
+				if gap() >= 129 {
+					full = true
+					break
+				}
+				if h.S.Unread() == 0 && h.S.ReaderParked() && ev[http2.VerifEvForwarded].Load() == ev[http2.VerifEvTaken].Load() && h.Stats.Busy.Load() == 0 {
+					break
+				}
+				time.Sleep(20 * time.Microsecond)
+			}
+		}
+		if !full {
+			return Outcome{Inconcl: fmt.Sprintf("could not fill the server's write queue (gap %d, %s)", gap(), h.StatsString())}
+		}
+		for i := 0; i < c.Filler; i++ {
+			_ = h.Write(rawframe.Append(nil, rawframe.WindowUpdate, 0, 0, rawframe.U32(1)))
+		}
+	}
 	for i := 0; i < c.InFlight; i++ {
 		open = id
 		send(fmt.Sprintf("f%d", i))
@@ -188,6 +227,12 @@ func c10Run(c c10Case) Outcome {
 	}
 	for i := 0; i < c.After; i++ {
 		send(fmt.Sprintf("a%d", i))
+	}
+	if c.Backpressure {
+		// give the loops the time to run into the full queue, then read again
+		time.Sleep(time.Duration(1+c.TrailN%5) * time.Millisecond)
+		h.S.SetWriteLimit(0)
+		h.C.HoldReads(false)
 	}
 	switch c.Trail {
 	case "valid":
@@ -221,16 +266,27 @@ func c10Run(c c10Case) Outcome {
 	h.ReleaseAll()
 	// ---- the connection handler must return
 	returned := h.WaitServeDone(6 * time.Second)
+	var stuckGs []string
+	if !returned {
+		stuckGs = h.ConnGoroutines() // before the peer reads again: the evidence is about the stalled connection
+	}
 	if c.Trail == "noread" {
 		h.C.HoldReads(false)
 	}
 	if !returned {
 		st := h.Stats
-		gs := h.ConnGoroutines()
+		gs := stuckGs
 		evidence := ""
 		for _, g := range gs {
 			if strings.Contains(g, "serverConn).readLoop") && strings.Contains(g, "chan send") && st.Ev[http2.VerifEvStreamLoopExit].Load() > 0 {
 				evidence = "read loop parked for ever on the hand-off to the stream loop, which has exited:\n" + firstLines(g, 12)
+			}
+		}
+		if evidence == "" && c.Trail == "noread" {
+			for _, g := range gs {
+				if strings.Contains(g, "serverConn).writeGoAway") && strings.Contains(g, "serverConn).write(") && strings.Contains(firstLines(g, 1), "[select") {
+					evidence = "the loop that found the connection error is parked queueing the GOAWAY behind a full write queue; the peer (this harness) has stopped reading and will not read again, so nothing ever ends the connection:\n" + firstLines(g, 12)
+				}
 			}
 		}
 		if evidence == "" && c.Trail == "noread" && st.Ev[http2.VerifEvStreamLoopExit].Load() > 0 && st.Ev[http2.VerifEvWriteLoopExit].Load() == 0 {
@@ -275,6 +331,9 @@ func c10Run(c c10Case) Outcome {
 		}
 	}
 	cls := []string{"off:" + c.Off, "trail:" + c.Trail}
+	if c.Backpressure {
+		cls = append(cls, "backpressure")
+	}
 	for _, g := range gas {
 		if g.Last < maxDispatched {
 			return fail("goaway-lies", "offence %q: GOAWAY(last-stream-id=%d, %s) but the request on stream %d was handed to a handler (a client would replay it)", c.Off, g.Last, peer.CodeName(g.Code), maxDispatched)
@@ -334,13 +393,15 @@ func c10Gen(t *rapid.T) c10Case {
 		names = append(names, o.name)
 	}
 	return c10Case{
-		Before:   rapid.IntRange(0, 4).Draw(t, "before"),
-		InFlight: rapid.IntRange(0, 3).Draw(t, "inflight"),
-		After:    rapid.IntRange(0, 3).Draw(t, "after"),
-		Off:      rapid.SampledFrom(names).Draw(t, "off"),
-		Trail:    rapid.SampledFrom([]string{"silent", "valid", "flood", "noread", "close"}).Draw(t, "trail"),
-		TrailN:   rapid.IntRange(0, 300).Draw(t, "trailn"),
-		Burst:    rapid.Bool().Draw(t, "burst"),
+		Before:       rapid.IntRange(0, 4).Draw(t, "before"),
+		InFlight:     rapid.IntRange(0, 3).Draw(t, "inflight"),
+		After:        rapid.IntRange(0, 3).Draw(t, "after"),
+		Off:          rapid.SampledFrom(names).Draw(t, "off"),
+		Trail:        rapid.SampledFrom([]string{"silent", "valid", "flood", "noread", "close"}).Draw(t, "trail"),
+		TrailN:       rapid.IntRange(0, 300).Draw(t, "trailn"),
+		Burst:        rapid.Bool().Draw(t, "burst"),
+		Backpressure: rapid.IntRange(0, 3).Draw(t, "backpressure") == 0,
+		Filler:       rapid.SampledFrom([]int{0, 10, 60, 110}).Draw(t, "filler"),
 	}
 }
 
